@@ -40,6 +40,12 @@ package astwalk
 //@   prop C13 C03
 //@   emits skipconsumed(recv)
 
+// a local definition handed to a visitor names an identifier of the analysed tree: the walker shows it at each of its calls,
+// the checkers' VisitLocalDef methods rely on it when they position a diagnostic at the name
+//@ func *.VisitLocalDef
+//@   prop C07 C01
+//@   requires @defined-name-is-an-identifier-of-the-tree arg0.ID != nil && tnode(arg0.ID)
+
 // the one-shot flag: read and cleared in one step
 //@ func (*WalkHandler).skipChilds
 //@   prop C13 C03
